@@ -30,7 +30,8 @@ RebuildClauses(r) ==
     << <<"rebuild=fresh-hierarchy-bitwise", r.fresh>>,
        <<"rebuild-keeps-transfer-operators", r.transfer>>,
        <<"rebuild-with-original-restores-action", r.orig => r.restored>>,
-       <<"rebuild-scales-exactly", r.pow2 => r.scaled>> >>
+       <<"rebuild-scales-exactly", r.pow2 => r.scaled>>,
+       <<"rebuild-never-modifies-its-argument", r.input_untouched>> >>
 
 GuardClauses(r) == << <<"rebuild-refused-when-not-allowed-or-wrong-shape", r.threw>> >>
 
